@@ -428,9 +428,78 @@ def h5_deep(timeout=200, part=None, **kw):
                          timeout, concretize=conc, part=part)
 
 
+# ---- H6: every page of a run is mapped by its own Rotate / MediaBox, whatever the earlier pages' content left behind --------------------------------------------------
+SEQ_ROT = [0, 90, 180, 270]
+SEQ_BOX = [[0, 0, 300, 400], [100, 50, 400, 250]]
+SEQ_TAIL = [b"", b" q 2 0 0 2 5 5 cm", b" q q 1 0 0 1 7 9 cm", b" BT /F1 7 Tf 3 Ts 5 Tc ET q"]        # what page 1 leaves open (ISO 32000-1 8.4.2: the stack is empty at the start of a page)
+SEQ_HEAD = [b"", b"Q ", b"Q Q "]                                         # surplus Q operators at the start of page 2 (no saved state: nothing to restore)
+
+
+def _page_ctm(rot, box):
+    x0, y0, x1, y1 = box
+    return {0: (1, 0, 0, 1, -x0, -y0), 90: (0, -1, 1, 0, -y0, x1), 180: (-1, 0, 0, -1, x1, y1), 270: (0, 1, -1, 0, y1, -x0)}[rot]
+
+
+def _seq_check(sel):
+    import io
+    from lib.pdfgen import Ref, Stream, build
+    from pdfminer.high_level import extract_pages
+    from pdfminer.layout import LTChar
+    rots = [SEQ_ROT[sel["r1"]], SEQ_ROT[sel["r2"]]]
+    boxes = [SEQ_BOX[sel["b1"]], SEQ_BOX[1 - sel["b1"]]]
+    contents = [b"BT /F1 10 Tf 10 50 Td (A) Tj ET" + SEQ_TAIL[sel["tail"]], SEQ_HEAD[sel["head"]] + b"BT /F1 10 Tf 10 50 Td (B) Tj ET"]
+    objs = {1: {"Type": "Catalog", "Pages": Ref(2)}, 2: {"Type": "Pages", "Kids": [Ref(4), Ref(6)], "Count": 2}, 3: {"Type": "Font", "Subtype": "Type1", "BaseFont": "Helvetica"}}
+    for i in range(2):
+        objs[4 + 2 * i] = {"Type": "Page", "Parent": Ref(2), "Contents": Ref(5 + 2 * i), "Resources": {"Font": {"F1": Ref(3)}}, "MediaBox": boxes[i], "Rotate": rots[i]}
+        objs[5 + 2 * i] = Stream({}, contents[i])
+    data = build(objs)
+    desc = "two pages (Rotate %r, MediaBox %r), page 1 ends with %r, page 2 starts with %r" % (rots, boxes, SEQ_TAIL[sel["tail"]], SEQ_HEAD[sel["head"]])
+
+    def chars(**kw):
+        out = []
+        for page in extract_pages(io.BytesIO(data), **kw):
+            out.append([tuple(c.matrix) for c in _walk(page) if isinstance(c, LTChar) and c.get_text() in "AB"])
+        return out
+
+    def _walk(o):
+        yield o
+        if hasattr(o, "__iter__") and not isinstance(o, LTChar):
+            for c in o:
+                yield from _walk(c)
+    try:
+        together = chars()
+        alone = [chars(page_numbers=[i])[0] for i in range(2)]
+    except Exception as e:
+        return "%s: raised %s: %s" % (desc, type(e).__name__, str(e)[:200])
+    for i in range(2):
+        a, b, c, d, e, f = _page_ctm(rots[i], boxes[i])
+        exp = (a, b, c, d, 10 * a + 50 * c + e, 10 * b + 50 * d + f)          # text matrix (1 0 0 1 10 50) x page matrix (LTChar.matrix does not include the font size)
+        for name, got in (("in one run", together[i] if i < len(together) else None), ("extracted alone", alone[i])):
+            if got != [exp]:
+                return "%s: the glyph matrix of page %d %s is %r; its own Rotate and MediaBox give %r" % (desc, i + 1, name, got, [exp])
+    return None
+
+
+def h6_pages(timeout=200, part=None, **kw):
+    import pdfminer.pdfinterp as pi
+
+    def fn(ex):
+        sel = {k: ex.choice(n, k) for k, n in (("r1", 4), ("r2", 4), ("b1", 2), ("tail", len(SEQ_TAIL)), ("head", len(SEQ_HEAD)))}
+        r = _seq_check(sel)
+        ex.require(r is None, r or "", pageseq=sel)
+
+    def conc(m, info):
+        return {"pageseq": info["pageseq"]}
+    return core.run_symx("H6_pages", fn, [pi.PDFPageInterpreter.process_page, pi.PDFPageInterpreter.init_state, pi.PDFPageInterpreter.do_Q],
+                         {"pages": 2, "Rotate": SEQ_ROT, "MediaBox": SEQ_BOX, "page 1 leaves open": [t.decode() for t in SEQ_TAIL], "page 2 starts with": [h.decode() for h in SEQ_HEAD],
+                          "oracle": "glyph matrix = (1 0 0 1 10 50) x the page matrix of ISO 32000-1 8.3.2.3 / Rotate, in one run and page by page"}, timeout, concretize=conc, part=part)
+
+
 def replay(harness, inp):
     if "deep" in inp:
         return _deep_check(inp["deep"])
+    if "pageseq" in inp:
+        return _seq_check(inp["pageseq"])
     import pdfminer.pdfpage as pp
     if harness == "H1_select":
         class _Doc:
@@ -535,7 +604,7 @@ def replay(harness, inp):
 
 
 def jobs(tier):
-    J = [Job("H5_deep", "h5_deep", {}, 200), Job("H3_rotate", "h3_rotate", {}, 60), Job("H4_ctm", "h4_ctm", {}, 150), Job("H4_boxes", "h4_boxes", {}, 60)]
+    J = [Job("H5_deep", "h5_deep", {}, 200), Job("H6_pages", "h6_pages", {}, 200), Job("H3_rotate", "h3_rotate", {}, 60), Job("H4_ctm", "h4_ctm", {}, 150), Job("H4_boxes", "h4_boxes", {}, 60)]
     if tier == "quick":
         for k in range(3):
             J.append(Job("H1_select:n6:%d" % k, "h1_select", {"npages": 6, "part": [k, 3, 6]}, 150, "H1_select"))
